@@ -127,6 +127,20 @@ Definition create_sql (cols : list column) (tbl : str) : str :=
                                   (if Nat.eqb (fst ic) (key_index cols) then L " primary key" else []))
                          (numbered 0 cols)) ++ L ")".
 
+(* createTableSQL with the Primary flag on column k *)
+Definition create_sql_k (cols : list column) (tbl : str) (k : nat) : str :=
+  L "create table " ++ sql_ident tbl ++ L " (" ++
+  join (L ",") (List.map (fun ic => sql_ident (csql (snd ic)) ++ L " " ++ ctype (snd ic) ++
+                                  (if Nat.eqb (fst ic) k then L " primary key" else []))
+                         (numbered 0 cols)) ++ L ")".
+
+(* OrderBy(): " order by " + the SQL names (NOT quoted), ", " separated; nothing for an empty list *)
+Definition order_text (cols : list column) (ord : list nat) : str :=
+  match ord with
+  | [] => []
+  | _ => L " order by " ++ join (L ", ") (List.map (col_sql cols) ord)
+  end.
+
 Definition exists_sql (tbl : str) : str := L "select * from " ++ sql_ident tbl ++ L " where 1=0".
 
 Definition insert_sql (cols : list column) (tbl : str) : str :=
@@ -142,27 +156,27 @@ Definition delete_sql (tbl : str) : str := L "delete from " ++ sql_ident tbl ++ 
 
 (* ---- statements that reach the driver *)
 Inductive stmt :=
-| SCreateTbl
+| SCreateTbl (k : nat)                                      (* k = the column flagged Primary *)
 | SExists
 | SInsert (args : list val)
-| SSelect (w : list wtok) (args : list val)
+| SSelect (w : list wtok) (args : list val) (ord : list nat) (* ord = r.OrderList *)
 | SUpdate (w : list wtok) (args : list val)
 | SDelete (w : list wtok) (args : list val).
 
 Definition stmt_text (cols : list column) (tbl : str) (s : stmt) : str :=
   match s with
-  | SCreateTbl => create_sql cols tbl
+  | SCreateTbl k => create_sql_k cols tbl k
   | SExists => exists_sql tbl
   | SInsert _ => insert_sql cols tbl
-  | SSelect w _ => read_row_sql cols tbl ++ where_text cols w
+  | SSelect w _ ord => read_row_sql cols tbl ++ where_text cols w ++ order_text cols ord
   | SUpdate w _ => update_sql cols tbl ++ where_text cols w
   | SDelete w _ => delete_sql tbl ++ where_text cols w
   end.
 
 Definition stmt_args (s : stmt) : list val :=
   match s with
-  | SCreateTbl | SExists => []
-  | SInsert a | SSelect _ a | SUpdate _ a | SDelete _ a => a
+  | SCreateTbl _ | SExists => []
+  | SInsert a | SSelect _ a _ | SUpdate _ a | SDelete _ a => a
   end.
 
 (* ---- histories *)
@@ -172,7 +186,11 @@ Inductive op :=
 | OInsert (r : row)
 | ORead (fs : list fspec)
 | OUpdate (r : row) (fs : list fspec)
-| ODelete (fs : list fspec).
+| ODelete (fs : list fspec)
+| OSetKey (name : str)            (* SetPrimaryKey *)
+| OSort (names : list str)        (* Sort *)
+| OReadOne (v : val) | OUpdateOne (r : row) | ODeleteOne (v : val)
+| OReopen.                        (* Close + Open: a fresh handle on the same database *)
 Inductive res := RErr | ROk | RCount (n : N) | RRows (rs : list row).
 
 (* what the filter constructors hand back: nil, the invalid-filter marker, or a filter *)
@@ -240,27 +258,66 @@ Fixpoint keys_unique (ki : nat) (t : list row) : bool :=
 
 Definition db := option (list row).
 
+(* ---- ordering (ORDER BY c1, c2, ... ascending) *)
+Fixpoint ord_cmp (ord : list nat) (a b : row) : comparison :=
+  match ord with
+  | [] => Eq
+  | c :: r => match val_cmp (nth c a dflt) (nth c b dflt) with Eq => ord_cmp r a b | x => x end
+  end.
+Fixpoint insert_sorted (ord : list nat) (x : row) (l : list row) : list row :=
+  match l with
+  | [] => [x]
+  | y :: r => match ord_cmp ord x y with Lt => x :: y :: r | _ => y :: insert_sorted ord x r end
+  end.
+(* the rows in ascending order of the listed columns; rows that tie keep their table order *)
+Definition sort_rows (ord : list nat) (l : list row) : list row :=
+  fold_left (fun acc x => insert_sorted ord x acc) l [].
+
+(* Sort(names...): for each name every column it matches (EqualFold), in column order *)
+Fixpoint cols_matching_from (i : nat) (cols : list column) (name : str) : list nat :=
+  match cols with
+  | [] => []
+  | c :: r => (if eqfold name (cname c) then [i] else []) ++ cols_matching_from (S i) r name
+  end.
+Definition order_list (cols : list column) (names : list str) : list nat :=
+  flat_map (cols_matching_from 0 cols) names.
+
+Definition col_name (cols : list column) (ci : nat) : str :=
+  match nth_error cols ci with Some c => cname c | None => [] end.
+(* the column ReadOne / DeleteOne filter on: Equals(PrimaryKey(), key) looks the field NAME up again *)
+Definition key_lookup (cols : list column) (k : nat) : option nat := find_col cols (col_name cols k).
+(* the column UpdateOne filters on: Equals(r.Columns[keyIndex].SQLName, ...) looks the SQL name up as a field name *)
+Definition upd_lookup (cols : list column) (k : nat) : option nat := find_col cols (col_sql cols k).
+
+(* the handle: which column is flagged Primary (None until Create or SetPrimaryKey), OrderList;
+   the database: the table and the column its primary-key constraint was created on *)
+Record st := mkst { sdb : db; stk : nat; shk : option nat; sord : list nat }.
+Definition st0 : st := mkst None O None [].
+
 Section Engine.
   (* SQLite's reading of the where-clause token sequence: None = syntax error *)
   Variable wsem : list wtok -> option (list cond).
+  (* SQLite's ORDER BY over the selected rows *)
+  Variable osem : list nat -> list row -> list row.
   Variable cols : list column.
 
   Definition ncols := List.length cols.
   Definition ki := key_index cols.
 
-  Definition exec (d : db) (s : stmt) : db * res :=
+  (* k = column of the table's primary-key constraint *)
+  Definition exec (k : nat) (d : db) (s : stmt) : db * res :=
     match s, d with
-    | SCreateTbl, None => (Some [], ROk)
-    | SCreateTbl, Some _ => (d, RErr)
+    | SCreateTbl _, None => (Some [], ROk)
+    | SCreateTbl _, Some _ => (d, RErr)
     | SExists, None => (d, RErr)
     | SExists, Some _ => (d, ROk)
     | _, None => (d, RErr)
     | SInsert a, Some t =>
-        if existsb (key_eqb ki a) t then (d, RErr) else (Some (t ++ [a]), ROk)
-    | SSelect w a, Some t =>
+        if existsb (key_eqb k a) t then (d, RErr) else (Some (t ++ [a]), ROk)
+    | SSelect w a ord, Some t =>
         match wsem w with
         | None => (d, RErr)
-        | Some cs => (d, RRows (filter (row_matches cs a) t))
+        | Some cs => (d, RRows (osem ord (filter (row_matches cs a) t)))
         end
     | SDelete w a, Some t =>
         match wsem w with
@@ -274,63 +331,99 @@ Section Engine.
         | Some cs =>
             let nr := firstn ncols a in
             let t' := List.map (fun r => if row_matches cs a r then nr else r) t in
-            if keys_unique ki t' then (Some t', ROk) else (d, RErr)
+            if keys_unique k t' then (Some t', ROk) else (d, RErr)
         end
+    end.
+
+  Definition run_stmt (s : st) (q : stmt) : st * res :=
+    let '(d', x) := exec (stk s) (sdb s) q in (mkst d' (stk s) (shk s) (sord s), x).
+
+  (* Create(): SetDefaultPrimaryKey (before the statement runs), then CREATE TABLE *)
+  Definition do_create (s : st) : st * res * list stmt :=
+    let k := match shk s with Some k => k | None => ki end in
+    match sdb s with
+    | None => (mkst (Some []) k (Some k) (sord s), ROk, [SCreateTbl k])
+    | Some _ => (mkst (sdb s) (stk s) (Some k) (sord s), RErr, [SCreateTbl k])
+    end.
+
+  (* filtered statement through the loop over filters; mk builds the statement *)
+  Definition filtered (fl : mfilter -> mfilter) (s : st) (ms : list mfilter) (nargs : nat)
+             (mk : list wtok -> list val -> stmt) : st * res * list stmt :=
+    match build_where ms 0 nargs with
+    | None => (s, RErr, [])
+    | Some (w, a) => let q := mk w a in let '(s', x) := run_stmt s q in (s', x, [q])
     end.
 
   (* one operation on the handle: new state, result, statements that reached the driver *)
-  Definition step (d : db) (o : op) : db * res * list stmt :=
+  Definition step (s : st) (o : op) : st * res * list stmt :=
     match o with
-    | OCreate => let '(d', x) := exec d SCreateTbl in (d', x, [SCreateTbl])
+    | OCreate => do_create s
     | OCreateIf =>
-        match exec d SExists with
-        | (_, RErr) => let '(d', x) := exec d SCreateTbl in (d', x, [SExists; SCreateTbl])
-        | (d', x) => (d', ROk, [SExists])
+        match sdb s with
+        | Some _ => (s, ROk, [SExists])
+        | None => let '(s', x, q) := do_create s in (s', x, SExists :: q)
         end
-    | OInsert r => let s := SInsert r in let '(d', x) := exec d s in (d', x, [s])
-    | ORead fs =>
-        match build_where (List.map (new_filter cols) fs) 0 0 with
-        | None => (d, RErr, [])
-        | Some (w, a) => let s := SSelect w a in let '(d', x) := exec d s in (d', x, [s])
+    | OInsert r => let q := SInsert r in let '(s', x) := run_stmt s q in (s', x, [q])
+    | ORead fs => filtered id s (List.map (new_filter cols) fs) 0 (fun w a => SSelect w a (sord s))
+    | OUpdate r fs => filtered id s (List.map (new_filter cols) fs) (List.length r) (fun w a => SUpdate w (r ++ a))
+    | ODelete fs => filtered id s (List.map (new_filter cols) fs) 0 (fun w a => SDelete w a)
+    | OSetKey n => (mkst (sdb s) (stk s) (find_col cols n) (sord s), ROk, [])
+    | OSort ns => (mkst (sdb s) (stk s) (shk s) (order_list cols ns), ROk, [])
+    | OReadOne v =>
+        match shk s with
+        | None => (s, RErr, [])
+        | Some k =>
+            let '(s', x, q) := filtered id s [new_filter cols (FBy (col_name cols k) OpEq v)] 0
+                                        (fun w a => SSelect w a (sord s)) in
+            (s', match x with RRows (r :: _) => RRows [r] | _ => RErr end, q)
         end
-    | OUpdate r fs =>
-        match build_where (List.map (new_filter cols) fs) 0 (List.length r) with
-        | None => (d, RErr, [])
-        | Some (w, a) => let s := SUpdate w (r ++ a) in let '(d', x) := exec d s in (d', x, [s])
+    | ODeleteOne v =>
+        match shk s with
+        | None => (s, RErr, [])
+        | Some k =>
+            let '(s', x, q) := filtered id s [new_filter cols (FBy (col_name cols k) OpEq v)] 0
+                                        (fun w a => SDelete w a) in
+            (s', match x with RCount 0 => RErr | RCount _ => ROk | _ => RErr end, q)
         end
-    | ODelete fs =>
-        match build_where (List.map (new_filter cols) fs) 0 0 with
-        | None => (d, RErr, [])
-        | Some (w, a) => let s := SDelete w a in let '(d', x) := exec d s in (d', x, [s])
+    | OUpdateOne r =>
+        match shk s with
+        | None => (s, RErr, [])
+        | Some k =>
+            match nth_error r k with
+            | None => (s, RErr, [])
+            | Some v => filtered id s [new_filter cols (FBy (col_sql cols k) OpEq v)] (List.length r)
+                                 (fun w a => SUpdate w (r ++ a))
+            end
         end
+    | OReopen => (mkst (sdb s) (stk s) None [], ROk, [])
     end.
 
-  Definition step_old (d : db) (o : op) : db * res * list stmt :=
+  Definition step_old (s : st) (o : op) : st * res * list stmt :=
     match o with
     | ORead fs =>
         let '(w, a) := build_where_old (List.map (new_filter_old cols) fs) 0 0 in
-        let s := SSelect w a in let '(d', x) := exec d s in (d', x, [s])
+        let q := SSelect w a (sord s) in let '(s', x) := run_stmt s q in (s', x, [q])
     | OUpdate r fs =>
         let '(w, a) := build_where_old (List.map (new_filter_old cols) fs) 0 (List.length r) in
-        let s := SUpdate w (r ++ a) in let '(d', x) := exec d s in (d', x, [s])
+        let q := SUpdate w (r ++ a) in let '(s', x) := run_stmt s q in (s', x, [q])
     | ODelete fs =>
         let '(w, a) := build_where_old (List.map (new_filter_old cols) fs) 0 0 in
-        let s := SDelete w a in let '(d', x) := exec d s in (d', x, [s])
-    | _ => step d o
+        let q := SDelete w a in let '(s', x) := run_stmt s q in (s', x, [q])
+    | _ => step s o
     end.
 
-  Fixpoint run_from (stp : db -> op -> db * res * list stmt) (d : db) (h : list op) : db * list res :=
+  Fixpoint run_from (stp : st -> op -> st * res * list stmt) (s : st) (h : list op) : st * list res :=
     match h with
-    | [] => (d, [])
-    | o :: r => let '(d', x, _) := stp d o in let '(d'', xs) := run_from stp d' r in (d'', x :: xs)
+    | [] => (s, [])
+    | o :: r => let '(s', x, _) := stp s o in let '(s'', xs) := run_from stp s' r in (s'', x :: xs)
     end.
-  Definition run (h : list op) : db * list res := run_from step None h.
-  Definition run_old (h : list op) : db * list res := run_from step_old None h.
+  Definition run (h : list op) : st * list res := run_from step st0 h.
+  Definition run_old (h : list op) : st * list res := run_from step_old st0 h.
 
-  Fixpoint trace_from (d : db) (h : list op) : list (res * list stmt) :=
+  Fixpoint trace_from (s : st) (h : list op) : list (res * list stmt) :=
     match h with
     | [] => []
-    | o :: r => let '(d', x, ss) := step d o in (x, ss) :: trace_from d' r
+    | o :: r => let '(s', x, ss) := step s o in (x, ss) :: trace_from s' r
     end.
 End Engine.
 
@@ -343,6 +436,7 @@ Definition wsem_ref (toks : list wtok) : option (list cond) :=
   | TWhere :: TCond ci o k :: r => option_map (cons (ci, o, k)) (chain r)
   | _ => None
   end.
+Definition osem_ref : list nat -> list row -> list row := sort_rows.
 
 (* ---- the specification: a keyed in-memory table *)
 Inductive sfilter := SF (ci : nat) (o : cmpop) (v : val).
@@ -362,49 +456,95 @@ Fixpoint resolve (cols : list column) (fs : list fspec) : option (list sfilter) 
 Definition sf_holds (r : row) (f : sfilter) : bool := let '(SF ci o v) := f in cmp_val o (nth ci r dflt) v.
 Definition spec_matches (fs : list sfilter) (r : row) : bool := forallb (sf_holds r) fs.
 
-Definition spec_step (cols : list column) (d : db) (o : op) : db * res :=
-  let k := key_index cols in
-  match o, d with
-  | OCreate, None => (Some [], ROk)
-  | OCreate, Some _ => (d, RErr)
-  | OCreateIf, None => (Some [], ROk)
-  | OCreateIf, Some _ => (d, ROk)
-  | OInsert r, Some t => if existsb (key_eqb k r) t then (d, RErr) else (Some (t ++ [r]), ROk)
-  | ORead fs, Some t =>
-      match resolve cols fs with
-      | Some sfs => (d, RRows (filter (spec_matches sfs) t))
-      | None => (d, RErr)
+(* table operations on (rows, key column) *)
+Definition t_read (sfs : list sfilter) (ord : list nat) (t : list row) : list row :=
+  sort_rows ord (filter (spec_matches sfs) t).
+Definition t_delete (sfs : list sfilter) (t : list row) : list row * nat :=
+  (filter (fun r => negb (spec_matches sfs r)) t, List.length (filter (spec_matches sfs) t)).
+Definition t_update (k : nat) (sfs : list sfilter) (nr : row) (t : list row) : option (list row) :=
+  let t' := List.map (fun r => if spec_matches sfs r then nr else r) t in
+  if keys_unique k t' then Some t' else None.
+
+Definition spec_step (cols : list column) (s : st) (o : op) : st * res :=
+  let upd d := mkst d (stk s) (shk s) (sord s) in
+  match o with
+  | OCreate | OCreateIf =>
+      match sdb s, o with
+      | Some _, OCreateIf => (s, ROk)
+      | Some _, _ => (mkst (sdb s) (stk s) (Some (match shk s with Some k => k | None => key_index cols end)) (sord s), RErr)
+      | None, _ => let k := match shk s with Some k => k | None => key_index cols end in
+                   (mkst (Some []) k (Some k) (sord s), ROk)
       end
-  | ODelete fs, Some t =>
-      match resolve cols fs with
-      | Some sfs => (Some (filter (fun r => negb (spec_matches sfs r)) t),
-                     RCount (N.of_nat (List.length (filter (spec_matches sfs) t))))
-      | None => (d, RErr)
+  | OSetKey n => (mkst (sdb s) (stk s) (find_col cols n) (sord s), ROk)
+  | OSort ns => (mkst (sdb s) (stk s) (shk s) (order_list cols ns), ROk)
+  | OReopen => (mkst (sdb s) (stk s) None [], ROk)
+  | _ =>
+    match sdb s with
+    | None => (s, RErr)
+    | Some t =>
+      match o with
+      | OInsert r => if existsb (key_eqb (stk s) r) t then (s, RErr) else (upd (Some (t ++ [r])), ROk)
+      | ORead fs =>
+          match resolve cols fs with
+          | Some sfs => (s, RRows (t_read sfs (sord s) t))
+          | None => (s, RErr)
+          end
+      | ODelete fs =>
+          match resolve cols fs with
+          | Some sfs => let '(t', n) := t_delete sfs t in (upd (Some t'), RCount (N.of_nat n))
+          | None => (s, RErr)
+          end
+      | OUpdate nr fs =>
+          match resolve cols fs with
+          | Some sfs => match t_update (stk s) sfs nr t with Some t' => (upd (Some t'), ROk) | None => (s, RErr) end
+          | None => (s, RErr)
+          end
+      (* the keyed operations: on the column the HANDLE has flagged; no flag -> not found *)
+      | OReadOne v =>
+          match shk s with
+          | None => (s, RErr)
+          | Some k => match t_read [SF k OpEq v] (sord s) t with r :: _ => (s, RRows [r]) | [] => (s, RErr) end
+          end
+      | ODeleteOne v =>
+          match shk s with
+          | None => (s, RErr)
+          | Some k => let '(t', n) := t_delete [SF k OpEq v] t in
+                      (upd (Some t'), match n with O => RErr | _ => ROk end)
+          end
+      | OUpdateOne nr =>
+          match shk s with
+          | None => (s, RErr)
+          | Some k => match t_update (stk s) [SF k OpEq (nth k nr dflt)] nr t with
+                      | Some t' => (upd (Some t'), ROk) | None => (s, RErr) end
+          end
+      | _ => (s, RErr)
       end
-  | OUpdate nr fs, Some t =>
-      match resolve cols fs with
-      | Some sfs =>
-          let t' := List.map (fun r => if spec_matches sfs r then nr else r) t in
-          if keys_unique k t' then (Some t', ROk) else (d, RErr)
-      | None => (d, RErr)
-      end
-  | _, None => (d, RErr)
+    end
   end.
 
-Fixpoint spec_from (cols : list column) (d : db) (h : list op) : db * list res :=
+Fixpoint spec_from (cols : list column) (s : st) (h : list op) : st * list res :=
   match h with
-  | [] => (d, [])
-  | o :: r => let '(d', x) := spec_step cols d o in let '(d'', xs) := spec_from cols d' r in (d'', x :: xs)
+  | [] => (s, [])
+  | o :: r => let '(s', x) := spec_step cols s o in let '(s'', xs) := spec_from cols s' r in (s'', x :: xs)
   end.
-Definition spec_run (cols : list column) (h : list op) : db * list res := spec_from cols None h.
+Definition spec_run (cols : list column) (h : list op) : st * list res := spec_from cols st0 h.
 
 (* rows written by Insert/Update have one value per column (the Go struct guarantees it) *)
 Definition op_wf (n : nat) (o : op) : bool :=
   match o with
-  | OInsert r | OUpdate r _ => Nat.eqb (List.length r) n
+  | OInsert r | OUpdate r _ | OUpdateOne r => Nat.eqb (List.length r) n
   | _ => true
   end.
 Definition history_wf (cols : list column) (h : list op) : bool := forallb (op_wf (List.length cols)) h.
+
+(* schema condition for the keyed operations: looking a column up by its own field name, or by its SQL
+   name, finds that column (field names distinct under case folding, SQL name = lower-cased field name);
+   and there is at least one column (SetDefaultPrimaryKey indexes Columns[0]) *)
+Definition schema_ok (cols : list column) : bool :=
+  negb (Nat.eqb (List.length cols) 0) &&
+  forallb (fun k => match key_lookup cols k, upd_lookup cols k with
+                    | Some a, Some b => Nat.eqb a k && Nat.eqb b k
+                    | _, _ => false end) (seq 0 (List.length cols)).
 
 (* every filter of the history names an existing column (or is nil) *)
 Definition op_valid (cols : list column) (o : op) : bool :=
@@ -419,7 +559,6 @@ Definition nil_then_real (fs : list fspec) : bool :=
   | _ => false
   end.
 
-(* ---- the record type used by the harness: verifRec {ID uuid; Name string; Age int; Active bool; Tags []string; Raw json.RawMessage} *)
 Definition demo_cols : list column :=
   [ mkcol (L "ID") (L "id") (L "TEXT"); mkcol (L "Name") (L "name") (L "TEXT"); mkcol (L "Age") (L "age") (L "integer");
     mkcol (L "Active") (L "active") (L "boolean"); mkcol (L "Tags") (L "tags") (L "TEXT"); mkcol (L "Raw") (L "raw") (L "TEXT") ].
